@@ -26,8 +26,8 @@ from gen import grammars as G
 
 # flip to True when the corresponding fix is in /repo (the `_refuted` theorem is then replaced
 # by its positive `_fixed_` companion and ANY cross-process difference alarms)
-IMPLICIT_FIXED = False
-CONFLICT_ORDER_FIXED = False
+IMPLICIT_FIXED = True
+CONFLICT_ORDER_FIXED = True
 
 KNOWN_IMPLICIT = ("Eco grammar with >= 2 %implicit_tokens: production numbering of the implicit rule "
                   "depends on hash iteration order")
@@ -204,6 +204,10 @@ def gen_cases(ctx):
     base = G.Gram(["a", "b"], [("S", [[t("a"), r("S")], [t("b")]])])
     for k in range(0, 7):
         add("eco_implicit_%d" % min(k, 3), "E", with_implicit(rng, base, k))
+    # a REJECTED grammar (three undeclared %epp tokens): outside the property (no build result), observed only
+    bad = Case("invalid_epp", "O", base, {}, [])
+    bad.src = bad.src.replace("%%\n", '%epp x1 "a"\n%epp x2 "b"\n%epp x3 "c"\n%%\n', 1)
+    cases.append(bad)
     add("conflicts", "O", G.Gram(["+", "*", "n"], [("E", [[r("E"), t("+"), r("E")], [r("E"), t("*"), r("E")], [t("n")]])]))
     # ---- Eco with 0/1/2/3+ implicit tokens over random grammars, avoid_insert sets ----
     n_eco = ctx.n(36, 160)
@@ -438,6 +442,13 @@ def _run(ctx, exe, mexe, rng):
         if not d0.ok:
             # rejected grammar: the property is about successful builds; the error class must still agree
             ctx.count("rejected_" + ds[0].split()[0])
+            if len(set(ds)) > 1:
+                # e.g. WHICH of several invalid %epp declarations is reported follows ast.rs:369 `self.epp.iter()`
+                # (HashMap order).  The property constrains successful builds; recorded, not alarmed.
+                ctx.count("rejected_error_text_differs_between_processes")
+                ctx.coverage.setdefault("observations", []).append(
+                    {"what": "a rejected grammar is rejected with different messages in different processes",
+                     "grammar": c.src, "messages": sorted(set(x[:160] for x in ds))})
             if len(set(x.split()[0] for x in ds)) > 1:
                 ctx.violation(dict(base, what="grammar accepted in some processes and rejected in others", outcomes=sorted(set(x[:200] for x in ds)), replay_cmd=replay))
                 dig_ok = False
